@@ -303,3 +303,6 @@ func (s *IntakeSession) Submit(op *Op) (res string) {
 	}
 	return "rejected-earlier"
 }
+
+// SliceStore is an operation store (published or unpublished) over a fixed list of placed operations.
+func SliceStore(ps []Placed) *sliceStore { return &sliceStore{ops: ps} }
